@@ -90,7 +90,7 @@ func Run(c *hx.Ctx) {
 	}
 
 	// ---- frames ----
-	m := c.N(110, 700)
+	m := c.N(90, 700)
 	for i := 0; i < m; i++ {
 		in := w.genFrame(i)
 		c.Count("gen:frame:" + in.Label)
@@ -102,10 +102,10 @@ func Run(c *hx.Ctx) {
 	}
 
 	// ---- WriteMessage ----
-	k := c.N(36, 200)
+	k := c.N(18, 200)
 	for i := 0; i < k; i++ {
 		b := w.build(modelKinds[i%len(modelKinds)])
-		if len(serialize(b.msg)) > 260 {
+		if len(serialize(b.msg)) > 140 {
 			continue
 		}
 		doWrite(c, magics[c.Intn(len(magics))], b.msg, b.cmd, b.noAcc)
@@ -146,9 +146,9 @@ func (w *world) limit(in *input, b *budget) {
 		}
 		return
 	}
-	if len(in.Stream)/2 > 24+200 {
+	if len(in.Stream)/2 > 24+130 {
 		b.bigframe++
-		if b.bigframe > 6 || len(in.Stream)/2 > 1200 {
+		if b.bigframe > w.c.N(3, 40) || len(in.Stream)/2 > 1200 {
 			in.NoCoq = true
 		}
 	}
@@ -175,7 +175,7 @@ func (w *world) genFrame(i int) input {
 		// prefer the small message types: the model hashes the payload inside Coq
 		for {
 			b = w.build(modelKinds[c.Intn(len(modelKinds))])
-			if len(serialize(b.msg)) <= 200 || c.Intn(10) == 0 {
+			if len(serialize(b.msg)) <= 120 || c.Intn(10) == 0 {
 				break
 			}
 		}
